@@ -3,6 +3,7 @@ module scen
 go 1.21
 
 require (
+	github.com/VividCortex/ewma v1.2.0
 	github.com/acarl005/stripansi v0.0.0-20180116102854-5a71ef0e047d
 	github.com/mattn/go-runewidth v0.0.16
 	github.com/vbauerster/mpb/v8 v8.0.0
@@ -10,10 +11,7 @@ require (
 	mcrt v0.0.0
 )
 
-require (
-	github.com/VividCortex/ewma v1.2.0 // indirect
-	github.com/rivo/uniseg v0.4.7 // indirect
-)
+require github.com/rivo/uniseg v0.4.7 // indirect
 
 replace github.com/vbauerster/mpb/v8 => /repo
 
